@@ -94,9 +94,14 @@ func init() {
 	reg(&PropDef{
 		ID:    "C12",
 		Title: "Dispute lifecycle, voting power and tally follow the specified rules",
-		Funcs: fcNP("x/dispute/keeper.Ratio", "x/dispute/keeper.Keeper.UpdateDispute"),
+		Funcs: fcNP("x/dispute/keeper.Ratio", "x/dispute/keeper.Keeper.UpdateDispute", "x/dispute/keeper.Keeper.AddReporterVoteCount",
+			"x/dispute/keeper.Keeper.SubtractReporterVoteCount", "x/dispute/keeper.Keeper.SetVoterReporterStake"),
+		Assumptions: []string{
+			"reporter-keeper lookups (Delegation, GetReporterTokensAtBlock, GetDelegatorTokensAtBlock) are read-only; their results are unconstrained and referred to as ret(F,i)",
+		},
 		NotDecided: []string{
-			"status transition relation over all writers of Disputes, vote guards (once per address, only while open), power snapshots at the dispute block, group counters: not yet under contract",
+			"status transition relation over all writers of Disputes, vote guards (once per address, only while open), power snapshots at the dispute block: not yet under contract",
+			"no group counter overflows / goes below zero: the call-site preconditions of Add/SubtractReporterVoteCount inside SetVoterReporterStake cannot be established locally (they depend on the history of votes) and are not claimed",
 			"TallyVote's scaled sums against the formula (uses index iterators that are outside the modelled library surface)",
 		},
 	})
